@@ -2,11 +2,11 @@
 EXTENDS Subshell, Json
 MComponents == {"vars", "funcs", "opts", "shopts", "aliases", "traps", "cwd", "umask", "ulimit", "args", "fds", "dirs", "hash"}
 MMutators == {"asg", "unset", "export", "readonly", "declint", "ifs", "path", "fdef", "fundef", "sete", "setu", "pipefail", "noglob", "nullglob", "extglob", "alias", "unalias", "trapusr", "trapexit", "trapdbg",
-              "cd", "umask", "ulimit", "setargs", "shift", "exec3", "exec2", "execin", "pushd", "hashr", "exit", "return", "optind", "arr", "assoc", "expasg", "exparith"}
+              "cd", "umask", "ulimit", "setargs", "shift", "exec3", "exec2", "execin", "pushd", "hashr", "exit", "return", "execcmd", "execa", "optind", "arr", "assoc", "expasg", "exparith"}
 MCompOf == [m \in MMutators |->
    CASE m \in {"asg", "unset", "export", "readonly", "declint", "ifs", "path", "optind", "arr", "assoc", "expasg", "exparith"} -> "vars" [] m \in {"fdef", "fundef"} -> "funcs" [] m \in {"sete", "setu", "pipefail", "noglob"} -> "opts"
      [] m \in {"nullglob", "extglob"} -> "shopts" [] m \in {"alias", "unalias"} -> "aliases" [] m \in {"trapusr", "trapexit", "trapdbg"} -> "traps" [] m = "cd" -> "cwd" [] m = "umask" -> "umask" [] m = "ulimit" -> "ulimit"
-     [] m \in {"setargs", "shift"} -> "args" [] m \in {"exec3", "exec2", "execin"} -> "fds" [] m = "pushd" -> "dirs" [] m = "hashr" -> "hash" [] m \in {"exit", "return"} -> "none"]
+     [] m \in {"setargs", "shift"} -> "args" [] m \in {"exec3", "exec2", "execin"} -> "fds" [] m = "pushd" -> "dirs" [] m = "hashr" -> "hash" [] m \in {"exit", "return", "execcmd", "execa"} -> "none"]
 MContexts == {"paren", "cs", "bq", "pipefirst", "pipelast", "bg", "procsub", "coproc", "nested", "funcsub", "extfirst", "extlast", "extbg", "extcs", "bgjob", "fnbgjob", "coprocjob", "fnparen", "in_bg", "in_paren", "in_cs", "in_pipe"}      \* in_*: the observing parent is itself a subshell of that kind, the child a ( ) inside it
 MJobWaited == {"bgjob", "fnbgjob", "coprocjob"}
 Emit == phase # "done" \/ PrintT(<<"CASE", ToJson([ctx |-> ctx, muts |-> prog, changed |-> Changed, alive |-> alive])>>)
